@@ -255,3 +255,148 @@ def misaligned_zips(fn_node):
                     yield from visit(sub)
 
     yield from visit(fn_node.body)
+
+
+def dead_parameters(fn_node):
+    """Parameters whose value cannot influence anything the function returns or does: they are read only by guards
+    that merely raise / warn, by conditions whose branches do nothing that matters, or by assignments to names that are
+    themselves never used (backward liveness closure over names; flow-insensitive, so it errs on the side of calling a
+    parameter live)."""
+    a = fn_node.args
+    params = [x.arg for x in a.posonlyargs + a.args + a.kwonlyargs] + ([a.vararg.arg] if a.vararg else []) + ([a.kwarg.arg] if a.kwarg else [])
+
+    def loads(e):
+        return {n.id for n in ast.walk(e) if isinstance(n, ast.Name) and isinstance(n.ctx, ast.Load)}
+
+    def is_notice(b):
+        return isinstance(b, ast.Raise) or isinstance(b, ast.Pass) or (isinstance(b, ast.Expr) and isinstance(b.value, ast.Call) and getattr(b.value.func, "id", getattr(b.value.func, "attr", None)) in ("warn", "warning")) or (isinstance(b, ast.Expr) and isinstance(b.value, ast.Constant))
+
+    live = set()
+
+    def targets_of(st):
+        tgts = st.targets if isinstance(st, ast.Assign) else [st.target]
+        names, keys = set(), set()
+        for t in tgts:
+            for n in ast.walk(t):
+                if isinstance(n, ast.Name):
+                    (names if isinstance(n.ctx, ast.Store) else keys).add(n.id)
+            if isinstance(t, (ast.Subscript, ast.Attribute)):
+                root = t
+                while isinstance(root, (ast.Subscript, ast.Attribute)):
+                    root = root.value
+                if isinstance(root, ast.Name):
+                    names.add(root.id)
+        return names, keys
+
+    # names bound to (parts of) an argument: node = self.root; node = node.children[c]
+    arg_alias = set(params)
+    grew = True
+    while grew:
+        grew = False
+        for st0 in ast.walk(fn_node):
+            if isinstance(st0, ast.Assign) and len(st0.targets) == 1 and isinstance(st0.targets[0], ast.Name) and st0.targets[0].id not in arg_alias:
+                root = st0.value
+                while isinstance(root, (ast.Subscript, ast.Attribute)):
+                    root = root.value
+                if isinstance(root, ast.Name) and root.id in arg_alias and isinstance(st0.value, (ast.Subscript, ast.Attribute)):
+                    arg_alias.add(st0.targets[0].id)
+                    grew = True
+
+    def stores_into_param(st):
+        """x.attr = ... / x[k] = ... with x a parameter (self included): a mutation of an argument is an effect."""
+        tgts = st.targets if isinstance(st, ast.Assign) else [st.target]
+        for t in tgts:
+            if isinstance(t, (ast.Subscript, ast.Attribute)):
+                root = t
+                while isinstance(root, (ast.Subscript, ast.Attribute)):
+                    root = root.value
+                if isinstance(root, ast.Name) and root.id in arg_alias:
+                    return True
+        return False
+
+    def has_effect(stmts):
+        for st in stmts:
+            if isinstance(st, (ast.Return, ast.Continue, ast.Break, ast.Delete, ast.With, ast.AsyncWith, ast.Global, ast.Nonlocal)):
+                return True
+            if isinstance(st, ast.Expr) and not is_notice(st):
+                return True
+            if isinstance(st, (ast.Assign, ast.AugAssign, ast.AnnAssign)):
+                if targets_of(st)[0] & live or stores_into_param(st):
+                    return True
+            if isinstance(st, (ast.If, ast.While)):
+                if has_effect(st.body) or has_effect(st.orelse):
+                    return True
+            if isinstance(st, (ast.For, ast.AsyncFor)):
+                if has_effect(st.body) or has_effect(st.orelse):
+                    return True
+            if isinstance(st, ast.Try):
+                if has_effect(st.body) or any(has_effect(h.body) for h in st.handlers) or has_effect(st.orelse) or has_effect(st.finalbody):
+                    return True
+        return False
+
+    def sweep(stmts):
+        ch = False
+
+        def add(names):
+            nonlocal ch
+            if not names <= live:
+                live.update(names)
+                ch = True
+
+        for st in stmts:
+            if isinstance(st, (ast.FunctionDef, ast.AsyncFunctionDef)):
+                add(loads(st))  # a nested helper: everything it reads counts when it is called; be generous
+            elif isinstance(st, ast.Return) and st.value is not None:
+                add(loads(st.value))
+            elif isinstance(st, ast.Expr) and not is_notice(st):
+                add(loads(st.value))
+            elif isinstance(st, ast.Delete):
+                add(loads(st))
+            elif isinstance(st, (ast.Assign, ast.AugAssign, ast.AnnAssign)) and st.value is not None:
+                names, keys = targets_of(st)
+                if names & live or stores_into_param(st):
+                    add(loads(st.value) | keys | (names if isinstance(st, ast.AugAssign) else set()))
+            elif isinstance(st, (ast.If, ast.While)):
+                if has_effect(st.body) or has_effect(st.orelse):
+                    add(loads(st.test))
+                ch |= sweep(st.body) | sweep(st.orelse)
+            elif isinstance(st, (ast.For, ast.AsyncFor)):
+                tnames = {n.id for n in ast.walk(st.target) if isinstance(n, ast.Name)}
+                if tnames & live or has_effect(st.body):
+                    add(loads(st.iter))
+                ch |= sweep(st.body) | sweep(st.orelse)
+            elif isinstance(st, (ast.With, ast.AsyncWith)):
+                for it in st.items:
+                    add(loads(it.context_expr))
+                ch |= sweep(st.body)
+            elif isinstance(st, ast.Try):
+                ch |= sweep(st.body)
+                for h in st.handlers:
+                    ch |= sweep(h.body)
+                ch |= sweep(st.orelse) | sweep(st.finalbody)
+        return ch
+
+    while sweep(fn_node.body):
+        pass
+    return [p for p in params if p not in live and p not in ("self", "cls")]
+
+
+def check_dead_params(res, prop, rule, fns, what):
+    """Apply dead_parameters to a list of FunctionInfo; returns the number of functions examined."""
+    from ..report import mk_finding
+
+    n = 0
+    for fn in fns:
+        if fn.name.startswith("_") and not fn.name.startswith("__"):
+            continue
+        body = [b for b in fn.node.body if not (isinstance(b, ast.Expr) and isinstance(b.value, ast.Constant))]
+        if not body or all(isinstance(b, (ast.Raise, ast.Pass)) for b in body):
+            continue
+        if fn.is_property() or not [p for p in fn.all_params if p not in ("self", "cls")]:
+            continue
+        n += 1
+        dead = dead_parameters(fn.node)
+        res.inst(rule, f"{fn.fq}: every parameter can influence {what}", not dead)
+        for p in dead:
+            res.add(mk_finding(prop, rule, fn, fn.node, f"{fn.qualname}: the parameter `{p}` cannot influence {what} (it is only checked, or stored in a name nothing reads); the documented effect of that argument is silently dropped", role=f"dead:{p}"))
+    return n
